@@ -586,6 +586,16 @@ def hand_programs():
             "blocks": [{"id": 0, "kind": "CrossBlock", "design": [0], "crossing": [0], "constraints": [], "rcc": True},
                        {"id": 1, "kind": "CrossBlock", "design": [1], "crossing": [1], "constraints": [], "rcc": True},
                        {"id": 2, "kind": "Nest", "outer": 0, "inner": 1, "constraints": [c["id"] for c in cons]}], "main": 2}))
+    # Nest whose outer block has excluded crossing combinations: the crossing size is
+    # (combinations - excluded) x sustain (seed C16-crossing-size-sustain-before-exclusions)
+    c3 = F(0, "color", ["red", "green", "blue"])
+    sh = F(1, "shape", ["o", "x"])
+    se = F(2, "sess", ["s1", "s2"])
+    out.append(("nest-outer-exclude", {
+        "factors": [c3, sh, se], "constraints": [{"id": 0, "kind": "Exclude", "level": [0, "red"]}],
+        "blocks": [{"id": 0, "kind": "CrossBlock", "design": [0, 1], "crossing": [0, 1], "constraints": [0], "rcc": False},
+                   {"id": 1, "kind": "CrossBlock", "design": [2], "crossing": [2], "constraints": [], "rcc": True},
+                   {"id": 2, "kind": "Nest", "outer": 0, "inner": 1, "constraints": []}], "main": 2}))
     return out
 
 
